@@ -95,9 +95,14 @@ Mk(c, k) ==
     /\ rq' = [op |-> "Mk", c |-> c, kind |-> k]
     /\ Apply(MkOutcome(st, rq'), c)
 
-DeleteColl(c) ==
-    /\ rq' = [op |-> "DeleteColl", c |-> c]
-    /\ Apply(DeleteCollOutcome(st, rq'), c)
+\* the validator of a collection is (a function of) its snapshot; 1 stands for "the current
+\* one", 2 for any other value
+CollConds == {NoCond, [present |-> TRUE, star |-> TRUE, tags |-> {}],
+              [present |-> TRUE, star |-> FALSE, tags |-> {1}], [present |-> TRUE, star |-> FALSE, tags |-> {2}],
+              [present |-> TRUE, star |-> FALSE, tags |-> {1, 2}]}
+DeleteColl(c, im) ==
+    /\ rq' = [op |-> "DeleteColl", c |-> c, im |-> im]
+    /\ Apply(DeleteCollOutcome(st, rq', IF Exists(st, c) THEN 1 ELSE NoTag), c)
 
 \* one PROPPATCH request: a sequence of 1..MaxInstr instructions, in document order; the
 \* instructions on properties the collection kind does not support are refused individually
@@ -125,7 +130,7 @@ Next ==
     \/ \E c \in Coll, n \in Name, b \in Body : Post(c, n, b)
     \/ \E c \in Coll, n \in Name : \E im \in Conds(c, n) : Delete(c, n, im)
     \/ \E c \in Coll, k \in Kinds : Mk(c, k)
-    \/ \E c \in Coll : DeleteColl(c)
+    \/ \E c \in Coll, im \in CollConds : DeleteColl(c, im)
     \/ \E c \in Coll, ins \in InstrSeqs : Proppatch(c, ins)
     \/ \E d \in BOOLEAN : Restart(d)
 
@@ -202,6 +207,8 @@ AppendOnly ==
 
 \* C03: a state-changing conditional request had a satisfied condition
 CondRespected ==
+    [][(rq'.op = "DeleteColl" /\ resp' = "ok" /\ rq'.im.present => (rq'.im.star \/ 1 \in rq'.im.tags))]_vars
+CondRespectedMembers ==
     [][(rq'.op \in {"Put", "Delete"} /\ resp' = "ok") =>
           LET cur == CurTag(rq'.c, rq'.n) IN
           /\ (rq'.im.present => CondMatches(rq'.im, cur))
